@@ -52,6 +52,7 @@ pub struct State<'a, T: Elem> {
     pub shared: &'a Bmp,
     pub spare: Vec<&'a mut Bmp>,
     pub bufs: Vec<usize>,
+    pub base: Option<usize>,
     pub ret: Vec<u32>,
     pub num: Vec<i64>,
     pub unsupported: bool,
@@ -144,7 +145,17 @@ impl<'a, T: Elem> State<'a, T> {
         self.bufs.len() as i64
     }
 
-    /// [kind, ids (model order), len, cap (-2 = usize::MAX), buffer identity]
+    /// address relative to the first address seen in this behaviour (+2^29); -2 = dangling, -1 = too far away to say
+    fn rel_addr(&mut self, addr: usize) -> i64 {
+        if addr == mem::align_of::<T>() {
+            return -2;
+        }
+        let base = *self.base.get_or_insert(addr);
+        let d = addr as i128 - base as i128 + (1i128 << 29);
+        if d < 0 || d >= (1i128 << 30) { -1 } else { d as i64 }
+    }
+
+    /// [kind, ids (model order), len, cap (-2 = usize::MAX), buffer identity, start address (relative)]
     pub fn snapshot(&mut self) -> Value {
         let mut out = Vec::new();
         for i in 0..self.slots.len() {
@@ -174,7 +185,12 @@ impl<'a, T: Elem> State<'a, T> {
             };
             let ids = if T::ZST { vec![] } else { ids };
             let b = if k == "-" { 0 } else { self.buf_index(addr) };
-            out.push(json!([k, ids, len, cap, b]));
+            let start = match &self.slots[i] {
+                Cont::R(x) => x.as_ptr() as usize,
+                _ => addr,
+            };
+            let a = if k == "-" { 0 } else { self.rel_addr(start) };
+            out.push(json!([k, ids, len, cap, b, a]));
         }
         Value::Array(out)
     }
@@ -875,6 +891,7 @@ pub fn run<T: Elem>(beh: &Behaviour, bidx: usize) -> Value {
             shared: &shared,
             spare: excl.iter_mut().collect(),
             bufs: Vec::new(),
+            base: None,
             ret: Vec::new(),
             num: Vec::new(),
             unsupported: false,
@@ -884,7 +901,7 @@ pub fn run<T: Elem>(beh: &Behaviour, bidx: usize) -> Value {
         let init_created = elem::with(|c| c.created.clone());
         let init_cs = st.snapshot();
         steps_out.push(json!({"op": "init", "c": 1, "d": 0, "i": 0, "j": 0, "s": "", "pk": "", "pn": 0,
-            "o": {"out": "ok", "injp": false, "msg": "", "ret": [], "num": [], "cs": init_cs, "dr": [], "cr": init_created,
+            "o": {"out": "ok", "injp": false, "msg": "", "ret": [], "num": [], "cs": init_cs, "dr": [], "cr": init_created, "cl": [],
                   "tomb": false, "held": [], "zc": elem::with(|c| c.zst_created), "zd": elem::with(|c| c.zst_dropped), "xcb": 0}}));
         for s in &beh.steps {
             // ids created by Clone / closures / iterators inside the operation, in order
@@ -913,13 +930,14 @@ pub fn run<T: Elem>(beh: &Behaviour, bidx: usize) -> Value {
                 }
             };
             let (dr, cr, xcb, fired) = elem::with(|c| (c.dropped.clone(), c.created.clone(), c.fresh_underflow, c.fired));
+            let cl: Vec<Vec<u32>> = elem::with(|c| c.clones.iter().map(|(a, b)| vec![*a, *b]).collect());
             // reading the containers is part of the observation (a dead element inside a container sets tomb)
             let cs = st.snapshot();
             let held: Vec<u32> = st.held.iter().map(|e| e.id()).collect();
             let tomb = elem::with(|c| c.tomb);
             let (zc, zd) = elem::with(|c| (c.zst_created, c.zst_dropped));
             steps_out.push(json!({"op": s.op, "c": s.c, "d": s.d, "i": s.i, "j": s.j, "s": s.s, "pk": s.pk_s, "pn": s.pn, "e": s.e,
-                "o": {"out": out, "injp": injp, "fired": fired, "msg": msg, "ret": st.ret, "num": st.num, "cs": cs, "dr": dr, "cr": cr,
+                "o": {"out": out, "injp": injp, "fired": fired, "msg": msg, "ret": st.ret, "num": st.num, "cs": cs, "dr": dr, "cr": cr, "cl": cl,
                       "tomb": tomb, "held": held, "zc": zc, "zd": zd, "xcb": xcb}}));
             if unsupported_seen {
                 break;
@@ -935,5 +953,5 @@ pub fn run<T: Elem>(beh: &Behaviour, bidx: usize) -> Value {
     }
     drop(excl);
     json!({"b": bidx, "shape": T::SHAPE, "up": UP, "ma": MA, "kind": beh.kind, "zst": beh.zst, "crash": false,
-           "unsup": unsupported_seen, "std": false, "stopped": false, "steps": steps_out})
+           "unsup": unsupported_seen, "std": false, "stopped": false, "esz": mem::size_of::<T>(), "steps": steps_out})
 }
